@@ -20,7 +20,10 @@ func checkMatchesSubject(r *Run, prog *Program, a *Anchors, pfx string) {
 		ps := NewPathSim(prog)
 		ps.Inline = func(c *ssa.Function) bool { return bexprHelper(prog, a, c) && !recursive(prog, c) }
 		ke := &kindEnv{prog: prog}
-		pv := paramSym(m.Params[len(m.Params)-1])
+		_, pv := matcherOperands(m)
+		if pv == nil {
+			continue
+		}
 		for _, sm := range ps.Run(m) {
 			for _, ev := range sm.Events() {
 				if ev.Instr == nil || ev.Callee == nil || ev.Callee.Pkg == nil || ev.Callee.Pkg.Pkg.Path() != "regexp" || ev.Callee.Signature.Recv() == nil {
